@@ -299,11 +299,12 @@ func firstSnapDiff(a, b string) string {
 }
 
 type c13Case struct {
-	Inputs  []string `json:"inputs"`
-	Calls   int      `json:"calls_per_goroutine"`
-	Sched   bool     `json:"scheduling"`
-	MapMode bool     `json:"map_order"`
-	Choices []int    `json:"choices"`
+	Spec    *spec.Spec `json:"spec,omitempty"` // calls_per_goroutine == -3: sequential history x, y on this policy
+	Inputs  []string   `json:"inputs"`
+	Calls   int        `json:"calls_per_goroutine"`
+	Sched   bool       `json:"scheduling"`
+	MapMode bool       `json:"map_order"`
+	Choices []int      `json:"choices"`
 }
 
 func c13Bodies(inputs []string, calls int) []func(p *bluemonday.Policy) string {
@@ -506,6 +507,184 @@ func crossPolicyDiff(extra func(p *bluemonday.Policy)) string {
 	return ""
 }
 
+// ---- sequential histories: results do not depend on earlier calls -------------------------------------------
+
+func c13SeqSpecs() []spec.Spec {
+	out := []spec.Spec{c13Spec()}
+	out = append(out, specsByName("ugc", "cmd-email", "styles", "media", "links", "attrs", "everything-named")...)
+	out = append(out,
+		// link options switched on, URL parsing switched off afterwards
+		spec.Spec{Name: "c13-links-unparsed", Base: "new", Calls: []C{attrsOn([]string{"href", "rel", "target"}, "", "a", "area"), attrsOn([]string{"src"}, "", "img"),
+			opt("RequireNoFollowOnLinks", true), opt("AddTargetBlankToFullyQualifiedLinks", true), opt("RequireParseableURLs", false)}},
+		spec.Spec{Name: "c13-stdurls-unparsed", Base: "new", Calls: []C{attrsOn([]string{"href"}, "", "a"), {Op: "AllowStandardURLs"}, opt("RequireParseableURLs", false), opt("RequireNoReferrerOnLinks", true)}},
+		spec.Spec{Name: "c13-relative-off", Base: "new", Calls: []C{attrsOn([]string{"href"}, "", "a"), {Op: "AllowURLSchemes", Names: []string{"https"}}, opt("AllowRelativeURLs", true), opt("AllowRelativeURLs", false)}},
+		// shorthand properties whose default handlers split and recombine components
+		spec.Spec{Name: "c13-css-shorthands", Base: "new", Calls: []C{els("p", "span"),
+			{Op: "AllowStyles", Names: []string{"border", "background", "animation", "font", "transition", "margin", "padding", "outline", "columns", "flex", "list-style",
+				"text-decoration", "border-radius", "border-top", "column-rule", "grid-area", "transform", "box-shadow", "text-shadow", "filter"}, Scope: "global"}}},
+		spec.Spec{Name: "c13-iframe-crossorigin", Base: "new", Calls: []C{{Op: "AllowIFrames", Ints: []int{2, 10}}, attrsOn([]string{"src", "sandbox"}, "", "iframe"),
+			attrsOn([]string{"src", "crossorigin"}, "", "img", "audio"), opt("RequireCrossOriginAnonymous", true), {Op: "AllowComments"}, opt("AddSpaceWhenStrippingTag", true)}},
+	)
+	return out
+}
+
+func c13SeqInputs() []string {
+	in := append([]string{}, c13Inputs...)
+	in = append(in, c13CrossProbes...)
+	in = append(in, c13WarmUp...)
+	in = append(in, c17Probes...)
+	in = append(in,
+		`<p style="border: 1px bogus">a</p>`, `<p style="border: 1px solid">b</p>`, `<p style="border: 1px solid red">c</p>`, `<p style="border: bogus">d</p>`,
+		`<p style="background: red none">e</p>`, `<p style="background: red bogus repeat">f</p>`, `<p style="font: 12px arial">g</p>`, `<p style="font: bogus 12px/x arial">h</p>`,
+		`<p style="animation: a 1s ease">i</p>`, `<p style="animation: 1s 2s 3s 4s bogus">j</p>`, `<p style="transition: all 1s">k</p>`, `<p style="margin: 1px 2px 3px 4px 5px">l</p>`,
+		`<p style="margin: 1px 2px">m</p>`, `<span style="text-decoration: underline red">n</span>`, `<span style="text-decoration: bogus bogus">o</span>`, `<p style="list-style: square inside">p</p>`,
+		`<p style="transform: rotate(1deg)">q</p>`, `<p style="transform: bogus(1)">r</p>`, `<p style="box-shadow: 1px 1px red">s</p>`, `<p style="outline: 1px bogus red; border-radius: 1px 2px">t</p>`,
+		`<a href="javascript:alert(1)">j</a>`, `<a href=" http://e.x/ ">s</a>`, `<a href="HTTPS://E.X/p">u</a>`, `<a href="https://e.x/" rel="x" target="y">v</a>`, `<area href="//e.x/p">`,
+		`<a href="%zz">bad escape</a>`, `<img src="javascript:x"><img src="https://e.x/i">`, `<iframe src="https://e.x/" sandbox="allow-forms allow-scripts x"></iframe>`,
+		`<p>see <a>here</p>`, `</b></a>stray`, `<object><a>1</a></object><a href="/a">A</a>`, `<!-- c --><b>t`, ``, ` `,
+	)
+	return in
+}
+
+type pristineReq struct {
+	Spec   spec.Spec `json:"spec"`
+	Inputs []string  `json:"inputs"` // sanitised in this order on ONE fresh instance; the last result is returned
+}
+type pristineResp struct {
+	Out   string `json:"out"`
+	Panic string `json:"panic,omitempty"`
+}
+
+// Pristine is the body of `bmcheck pristine`: one policy, one input, first and only call of a fresh process.
+func Pristine() int {
+	var rq pristineReq
+	if err := json.NewDecoder(os.Stdin).Decode(&rq); err != nil {
+		return 2
+	}
+	p := spec.Build(rq.Spec)
+	var rs pristineResp
+	for _, in := range rq.Inputs {
+		rs.Out, rs.Panic = San(p, in)
+	}
+	json.NewEncoder(os.Stdout).Encode(rs)
+	return 0
+}
+
+// pristineResult asks a fresh process for the result of the last of a short series of calls on one fresh instance.
+func pristineResult(s spec.Spec, in ...string) (pristineResp, error) {
+	exe, err := os.Executable()
+	if err != nil {
+		return pristineResp{}, err
+	}
+	rq, _ := json.Marshal(pristineReq{s, in})
+	cmd := exec.Command(exe, "pristine")
+	cmd.Stdin = bytes.NewReader(rq)
+	var so bytes.Buffer
+	cmd.Stdout = &so
+	if err := cmd.Run(); err != nil {
+		return pristineResp{}, err
+	}
+	var rs pristineResp
+	err = json.Unmarshal(so.Bytes(), &rs)
+	return rs, err
+}
+
+// seqHistory: on every policy of the family, for every ordered pair (x, y) of inputs, a fresh instance that first
+// sanitises x must then turn y into what a fresh instance turns it into; the references themselves are computed
+// twice, in opposite orders, and must agree.
+func seqHistory(c *run.Ctx) {
+	ins := c13SeqInputs()
+	searches := 0
+	for _, s := range c13SeqSpecs() {
+		s := s
+		// this shard owns the columns y with yi % NShards == Shard; the reference for (policy, y) is the result of
+		// the first and only call of a fresh process, so that state shared between instances cannot taint it
+		for yi, y := range ins {
+			if yi%c.NShards != c.Shard {
+				continue
+			}
+			if c.Expired() {
+				return
+			}
+			rs, err := pristineResult(s, y)
+			if err != nil {
+				c.Cap("pristine reference process failed: " + err.Error())
+				return
+			}
+			c.Eval()
+			if rs.Panic != "" {
+				c.Violate("panic", "Sanitize panicked: "+rs.Panic, c13Case{Spec: &s, Inputs: []string{y, y}, Calls: -3})
+				continue
+			}
+			for xi, x := range ins {
+				p := spec.Build(s)
+				_, pm1 := San(p, x)
+				got, pm2 := San(p, y)
+				c.Eval()
+				c.Transitions++
+				c.Traces++
+				if xi != yi {
+					c.NontrivialN++
+				}
+				if pm1 != "" || pm2 != "" {
+					c.Violate("panic", "Sanitize panicked: "+pm1+pm2, c13Case{Spec: &s, Inputs: []string{x, y}, Calls: -3})
+					continue
+				}
+				if got != rs.Out {
+					c.Outcome("violation|history")
+					if searches >= 3 {
+						continue
+					}
+					searches++
+					// The cause may be an earlier call of this process (state shared between instances): find the
+					// shortest history that reproduces in a fresh process.
+					wx, found := x, false
+					if r2, err := pristineResult(s, x, y); err == nil && r2.Out != rs.Out {
+						found = true
+					} else {
+						for _, x2 := range ins {
+							if r3, err := pristineResult(s, x2, y); err == nil && r3.Out != rs.Out {
+								wx, found = x2, true
+								break
+							}
+						}
+					}
+					msg := fmt.Sprintf("policy %s: after sanitising %s the same policy turns %s into %s; the first call of a fresh process gives %s", s.Name, run.Q(wx), run.Q(y), run.Q(got), run.Q(rs.Out))
+					if !found {
+						msg += " (observed after a longer series of calls in one process; no single earlier call reproduces it)"
+					}
+					c.Violate("history|"+s.Name, msg, c13Case{Spec: &s, Inputs: []string{wx, y}, Calls: -3})
+					continue
+				}
+				c.Outcome("history-independent")
+			}
+		}
+	}
+}
+
+// replaySeqHistory runs in a fresh process: reference for y first, then x and y on one fresh instance.
+func replaySeqHistory(x c13Case) (bool, string) {
+	if x.Spec == nil || len(x.Inputs) != 2 {
+		return false, "malformed case"
+	}
+	ref, _ := San(spec.Build(*x.Spec), x.Inputs[1])
+	p := spec.Build(*x.Spec)
+	_, pm1 := San(p, x.Inputs[0])
+	got, pm2 := San(p, x.Inputs[1])
+	if pm1 != "" || pm2 != "" {
+		return true, "panic: " + pm1 + pm2
+	}
+	if got != ref {
+		return true, fmt.Sprintf("after sanitising %s the policy turns %s into %s; a fresh instance in a fresh process gives %s", run.Q(x.Inputs[0]), run.Q(x.Inputs[1]), run.Q(got), run.Q(ref))
+	}
+	// state shared between instances: the same on a second fresh instance
+	p2 := spec.Build(*x.Spec)
+	if got2, _ := San(p2, x.Inputs[1]); got2 != ref {
+		return true, fmt.Sprintf("after sanitising %s on another instance a fresh instance turns %s into %s instead of %s", run.Q(x.Inputs[0]), run.Q(x.Inputs[1]), run.Q(got2), run.Q(ref))
+	}
+	return false, "history replays with the fresh result"
+}
+
 func runC13(c *run.Ctx) {
 	// first thing in this (fresh) process: calls on one policy do not change what other policies do
 	if c.Shard == 0 {
@@ -533,6 +712,7 @@ func runC13(c *run.Ctx) {
 			}
 		}
 	}
+	seqHistory(c)
 	// ---- free-running race-detector pass (separate binary built with -race) ----------
 	if c.Shard == 0 {
 		rb := os.Getenv("VERIF_RACE_BIN")
@@ -684,6 +864,9 @@ func replayC13(raw json.RawMessage) (bool, string) {
 	if x.Calls == -2 {
 		d := crossPolicyDiff(nil)
 		return d != "", d
+	}
+	if x.Calls == -3 {
+		return replaySeqHistory(x)
 	}
 	if x.Calls < 0 {
 		rb := os.Getenv("VERIF_RACE_BIN")
